@@ -148,7 +148,7 @@ def run(ctx):
           % (len(space["items"]), len(pairs), len(frags), model["distinct"], model["wall"]))
   extra = {"doc": doc}
   # C->S: Hypothesis text for X, deeper random trees for F (generated by the workers from the seed)
-  small = [p for p in pairs if len(json.dumps(p[0])) < 120][:40]
+  small = [p for p in pairs[::max(1, len(pairs) // 60)] if len(json.dumps(p[0])) < 160][:40]
   per = 125 if ctx.quick else 250
   more = [{"hyp": ctx.seed * 1000003 + k, "n": per, "trees": [list(p) for p in small]}
           for k in range(N_HYP[ctx.tier] // per)]
